@@ -115,6 +115,7 @@ def run(ctx):
                 ctx.dist("paste")
 
     # ---------------- reverse / copy / iadd / extremes / classification on every sequence
+    intf_sets_zero = [(-2, -1, 0), (-2, 0), (-2, -2, 0), (0, 0, 0), (-1, 0, 1), (0, 1), (-3, 0)]
     intf_sets = [(1, 2, 3), (1, 1, 3), (1, 3, 3), (2, 2, 2), (3, 2, 1), (0, 2, 4), (1, 2), (2, 1, 3, 0)]
     for s in seqs:
         revs = [rng.random() < 0.5 for _ in s]
@@ -199,6 +200,24 @@ def run(ctx):
                     err = f"start/end letters {st},{en} disagree with first/last value"
                 add(f"ci {enc} {','.join(map(str, intf))}", out, err, {"op": "check_interfaces", "orders": s, "interfaces": intf})
                 ctx.dist("check_interfaces")
+            # the same classification with negative values and an interface that is exactly 0 (a falsy number)
+            s0 = tuple(o - 3 for o in s)
+            p0 = mk_path(s0, 20)
+            enc0 = Ids(p0).enc_path(p0)
+            for intf in intf_sets_zero:
+                st, en, mid, cross = p0.check_interfaces(list(intf))
+                out = f"{side(st)} {side(en)} {int(mid == 'M')} {','.join(str(int(c)) for c in cross)}"
+                lo, hi = min(intf), max(intf)
+                err = None
+                expc = [min(s0) < l <= max(s0) for l in intf]
+                if list(cross) != expc:
+                    err = f"crossing flags {cross} disagree with extremes {expc}"
+                exp_st = "L" if s0[0] <= lo else ("R" if s0[0] >= hi else "?")
+                exp_en = "L" if s0[-1] <= lo else ("R" if s0[-1] >= hi else "?")
+                if side(st) != exp_st or side(en) != exp_en:
+                    err = f"start/end letters {st},{en} disagree with first/last value {s0[0]},{s0[-1]} for interfaces {intf}"
+                add(f"ci {enc0} {','.join(map(str, intf))}", out, err, {"op": "check_interfaces", "orders": s0, "interfaces": intf})
+                ctx.dist("check_interfaces_zero")
 
     # ---------------- seeded random larger cases (paste / reverse)
     nrand = 300 if ctx.tier == "quick" else 3000
